@@ -136,6 +136,7 @@ const Eigen::Affine3d & ENUConverter::getEnuToEcefTransform() const
 //--------------------------------------------------------------------------
 void ENUConverter::reset()
 {
+  wgs84Anchor_ = GeodeticCoordinates();
   enu2ecef_ = Eigen::Affine3d::Identity();
   isAnchored_ = false;
 }
